@@ -319,6 +319,24 @@ def emit(seed, tier, with_numpy=False):
             ops.append({"op": "pow_i", "a": 0, "n": 0})
             ops.append({"op": "pow_f", "a": 0, "c": 1.0})
             jobs.append({"kind": "scalar", "class": cname, "inputs": [[fbits(p) for p in parts]], "ops": bitsify(ops)})
+    # every named function at the points where an implementation might take a shortcut: 0, -0, 1, -1, 1/2, 2 - inside or
+    # outside its domain (NaN and infinities must then be the Rust operation's NaN and infinities), followed by
+    # x * result so that every derivative part is used once more
+    for cname, nparts in CLASSES.items():
+        for re0 in (0.0, -0.0, 1.0, -1.0, 0.5, 2.0):
+            parts = [re0] + [0.75 - 0.5 * k for k in range(nparts - 1)]
+            ops = [{"op": name, "a": 0} for name in sorted(UNARY)]
+            n_first = len(ops)
+            for k in range(n_first):
+                ops.append({"op": "mul", "a": 0, "b": 1 + k})
+            for n in (0, 1, 2, 3, -1, -2):
+                ops.append({"op": "pow_i", "a": 0, "n": n})
+                ops.append({"op": "powi", "a": 0, "n": n})
+            for c in (0.0, 1.0, 2.0, 0.5, -1.0, 3.0):
+                ops.append({"op": "pow_f", "a": 0, "c": c})
+                ops.append({"op": "powf", "a": 0, "c": c})
+            ops.append({"op": "pow_d", "a": 0, "b": 0})
+            jobs.append({"kind": "scalar", "class": cname, "inputs": [[fbits(p) for p in parts]], "ops": bitsify(ops)})
     # the same coincidence inside a driver: sum(v) starts from the int 0, 0 + v[0] is the reflected addition
     for n in (1, 2, 10, 11):
         for re0 in (-0.0, 0.0):
